@@ -592,6 +592,7 @@ impl Disk
             if p==vconst.max_pairs as usize  && s+1!=fimg.end() {
                 // tslist spilled over to another sector
                 let next_tslist_ts = self.get_next_free_sector(false)?;
+                self.allocate_sector(next_tslist_ts[0],next_tslist_ts[1])?; // reserve before the next data sector is chosen
                 tslist.next_track = next_tslist_ts[0];
                 tslist.next_sector = next_tslist_ts[1];
                 self.write_sector(&tslist.to_bytes(),tslist_ts,0)?;
